@@ -1,7 +1,7 @@
 (* C20 — property theorems (statements only; proofs live in Proofs*.v). *)
 From Coq Require Import ZArith QArith Qround Qabs Bool List Sorted Permutation.
-Require Import QV.common.Ctl QV.C20.Model QV.C20.Spec QV.C20.ProofsNum QV.C20.ProofsWin QV.C20.ProofsShrink.
-Require Import QV.C20.ForLoop QV.C20.Gen_performance QV.C20.GenEq.
+Require Import QV.common.Util QV.common.Ctl QV.C20.Model QV.C20.Spec QV.C20.ProofsNum QV.C20.ProofsWin QV.C20.ProofsShrink.
+Require Import QV.C20.ForLoop QV.C20.Gen_performance QV.C20.GenEq QV.C20.ProofsAvg.
 Import ListNotations.
 Open Scope Q_scope.
 
@@ -91,6 +91,26 @@ Print Assumptions C20_shrink_pairwise_disjoint.
 Theorem C20_shrink_variants_equal : forall ws, shrink_numpy ws = shrink_loop ws.
 Proof. exact shrink_variants. Qed.
 Print Assumptions C20_shrink_variants_equal.
+
+(* ---- average_windows ---- *)
+Theorem C20_average_numpy_is_mean : forall nch time values ws,
+  Sorted Qle time -> length values = length time -> avg_numpy nch time values ws = spec_avg nch time values ws.
+Proof. exact avg_numpy_is_spec. Qed.
+Print Assumptions C20_average_numpy_is_mean.
+
+(* known finding C20-average-loop-unsorted-windows: the two implementations differ on a nested window *)
+Theorem C20_average_variants_equal_refuted :
+  avg_eqb (avg_loop 1 avg_witness_time avg_witness_values avg_witness_windows)
+          (avg_numpy 1 avg_witness_time avg_witness_values avg_witness_windows) = false
+  /\ guard_C20_average_sorted_windows avg_witness_windows = false.
+Proof. exact (conj avg_variants_refuted eq_refl). Qed.
+Print Assumptions C20_average_variants_equal_refuted.
+
+(* ---- ProgramEntry sampling: full statement, NOT proved; the flat-memory model is compared with the implementation
+        (check_corr) and the implementation with the direct formula spec_sample (check_spec) on every run ---- *)
+Definition C20_sampling_statement : Prop :=
+  forall chans markers rate wfs,
+    outcome_eqb (list_eqb sampled_eqb) (sample_waveforms chans markers rate wfs) (spec_sample chans markers rate wfs) = true.
 
 (* ---- the loop kernels re-translated from /repo on every run compute the clean models ---- *)
 Theorem C20_translated_shrink_is_model : forall bs ls, length bs = length ls ->
